@@ -52,3 +52,21 @@ func VH_C19_MsgData_Canon() {
 		vAssert(m3.version == m.version && vBytesEq(m3.Payload, m.Payload), "re-serialised message decodes to a different value")
 	}
 }
+
+// VH_C19_MsgData_Large: MsgData round trip with a payload of symbolic length.
+func VH_C19_MsgData_Large() {
+	l := vInt("plen")
+	vAssume(l >= 0 && l <= 100000)
+	p := vStream("p", l)
+	m := NewMsgData(vU8("version"), p)
+	b, err := m.Serialize()
+	vAssert(err == nil && len(b) == l+5, "Serialize failed or produced a wrong length")
+	vReach("large-roundtrip")
+	var m2 MsgData
+	err = m2.Deserialize(b)
+	vAssert(err == nil && m2.version == m.version && len(m2.Payload) == l, "version or payload length changed in the round trip")
+	j := vInt("j")
+	if err == nil && j >= 0 && j < l && j < len(m2.Payload) {
+		vAssert(m2.Payload[j] == p[j], "payload bytes changed in the round trip")
+	}
+}
